@@ -3,7 +3,7 @@ use crate::common::*;
 use crate::gen;
 use monero::blockdata::block::{Block, BlockHeader};
 use monero::blockdata::transaction::*;
-use monero::consensus::encode::{deserialize_partial, serialize, Decodable, Encodable, VarInt};
+use monero::consensus::encode::{deserialize, deserialize_partial, serialize, Decodable, Encodable, VarInt};
 use monero::cryptonote::hash::{Hash, Hash8};
 use monero::util::ringct::*;
 use std::io::Cursor;
@@ -13,6 +13,10 @@ fn dec<T: Decodable + Encodable>(b: &[u8]) -> String {
         Ok((v, k)) => { let mut w = Vec::new(); let len = v.consensus_encode(&mut w).unwrap(); format!("ok {} {} {}", k, hex(&w), len) }
         Err(_) => "err".into(),
     }
+}
+/// strict parse + re-serialisation through `serialize` (whose `unwrap` / `debug_assert_eq!(len, written)` are live in this profile)
+fn sdec<T: Decodable + Encodable + std::fmt::Debug>(b: &[u8]) -> String {
+    match deserialize::<T>(b) { Ok(v) => format!("ok {}", hex(&serialize(&v))), Err(_) => "err".into() }
 }
 pub fn parse_rct(n: &str) -> Option<RctType> { gen::RCT_TYPES.get(n.parse::<usize>().ok()?).copied() }
 
@@ -28,6 +32,18 @@ pub fn exec(t: &[&str]) -> Option<String> {
             "vec_varint" => dec::<Vec<VarInt>>(&b), "vec_key" => dec::<Vec<Key>>(&b), "vec_u8" => { let a = dec::<Vec<u8>>(&b); let c = dec::<RawExtraField>(&b); if a == c { a } else { format!("DIFFER vec={} raw={}", a, c) } }
             "string" => dec::<String>(&b),
             "vec_txin" => dec::<Vec<TxIn>>(&b), "vec_txout" => dec::<Vec<TxOut>>(&b),
+            // stand-alone codecs that nothing else reaches (audit C01 §3.3/3.4, C02 §3.3)
+            "rcttype" => dec::<RctType>(&b), "bool" => dec::<bool>(&b), "i8" => dec::<i8>(&b), "i16" => dec::<i16>(&b), "i32" => dec::<i32>(&b), "i64" => dec::<i64>(&b),
+            "box_key" => dec::<Box<[Key]>>(&b), "box_u8" => dec::<Box<[u8]>>(&b), "box_varint" => dec::<Box<[VarInt]>>(&b), "vec_hash" => dec::<Vec<Hash>>(&b),
+            "klrki" => dec::<MultisigKlrki>(&b), "msout" => dec::<MultisigOut>(&b),
+            _ => return None }) }
+        // `deserialize` (strict): the whole input must be consumed; compared with the model's `strict`
+        ["c01_strict", ty, h] => { let b = unhex(h); Some(match *ty {
+            "tx" => sdec::<Transaction>(&b), "prefix" => sdec::<TransactionPrefix>(&b), "txin" => sdec::<TxIn>(&b), "txout" => sdec::<TxOut>(&b),
+            "target" => sdec::<TxOutTarget>(&b), "block" => sdec::<Block>(&b), "header" => sdec::<BlockHeader>(&b),
+            "bp" => sdec::<Bulletproof>(&b), "bpp" => sdec::<BulletproofPlus>(&b), "vec_varint" => sdec::<Vec<VarInt>>(&b), "vec_key" => sdec::<Vec<Key>>(&b),
+            "vec_u8" => sdec::<Vec<u8>>(&b), "string" => sdec::<String>(&b), "vec_txin" => sdec::<Vec<TxIn>>(&b), "vec_txout" => sdec::<Vec<TxOut>>(&b),
+            "rcttype" => sdec::<RctType>(&b), "key" => sdec::<Key>(&b), "u32" => sdec::<u32>(&b), "box_key" => sdec::<Box<[Key]>>(&b),
             _ => return None }) }
         ["c01_dec_base", i, o, h] => { let b = unhex(h); let mut c = Cursor::new(&b[..]);
             Some(match RctSigBase::consensus_decode(&mut c, i.parse().ok()?, o.parse().ok()?) {
@@ -51,7 +67,8 @@ fn dec_case(o: &mut Out, ty: &str, b: &[u8], fam: &str) {
         let f: Vec<&str> = r.split(' ').collect();
         let k: usize = f[1].parse().unwrap();
         let re = unhex(f[2]);
-        o.direct(re[..] == b[..k], "C01: serialize(parse b) == b[..consumed]", line.clone(), f[2].to_string(), hex(&b[..k]));
+        // (`bool` accepts any non-zero byte as `true`; it is not reachable from Block / Transaction, so C01 does not speak about it: model comparison only)
+        if ty != "bool" { o.direct(re[..] == b[..k], "C01: serialize(parse b) == b[..consumed]", line.clone(), f[2].to_string(), hex(&b[..k])); }
         o.direct(f[3].parse::<usize>().ok() == Some(re.len()), "C02: reported length == bytes written", line.clone(), f[3].to_string(), re.len().to_string());
         o.nontrivial.insert(line);
     } else if r.starts_with("PANIC") || r.starts_with("DIFFER") {
@@ -87,6 +104,186 @@ pub fn components(o: &mut Out, r: &mut Rng, tx: &Transaction, mutants: usize) {
                     if res.starts_with("ok") { let f: Vec<&str> = res.split(' ').collect(); let k: usize = f[1].parse().unwrap(); o.direct(unhex(f[2])[..] == bb[..k], "C01: serialize(parse b) == b[..consumed]", line, f[2].into(), hex(&bb[..k])); }
                 } }
         }
+    }
+}
+
+/// strict-parse case: `deserialize` vs the model's `strict`, plus the intrinsic oracle (accepted ⇒ re-serialisation == whole input)
+fn strict_case(o: &mut Out, ty: &str, b: &[u8], fam: &str) {
+    let line = format!("c01_strict {} {}", ty, hex(b));
+    let r = o.op(line.clone(), false);
+    o.stat(&format!("strict.{}.{}.{}", ty, fam, if r.starts_with("ok") { "ok" } else if r == "err" { "err" } else { "other" }));
+    if let Some(h) = r.strip_prefix("ok ") { o.direct(unhex(h)[..] == b[..], "C01: serialize(deserialize(b)) == b", line.clone(), h.to_string(), hex(b)); o.nontrivial.insert(line); }
+    else if r != "err" { o.direct(false, "C04/C01: strict decoder panicked", line, r, "err or ok".into()); }
+}
+
+#[derive(Clone, Copy, PartialEq, Debug)]
+pub enum PosKind { Count, CountU32, Tag, RctType }
+/// Structural byte positions of a serialised transaction — every vector count (first byte), every input tag, every output
+/// target tag, the RingCT type byte, the range-proof count (u32 / varint / u8) and each proof's L and R counts — computed from the
+/// lengths of the separately serialised pieces; with the byte expected there (checked by the caller).
+pub fn tx_positions(tx: &Transaction) -> Vec<(usize, PosKind, u8)> {
+    let vb = |n: usize| gen::varint_bytes(n as u64);
+    let mut v = vec![];
+    let pre = &tx.prefix;
+    let mut p = serialize(&pre.version).len() + serialize(&pre.unlock_time).len();
+    v.push((p, PosKind::Count, vb(pre.inputs.len())[0])); p += vb(pre.inputs.len()).len();
+    for i in &pre.inputs {
+        match i { TxIn::Gen { .. } => v.push((p, PosKind::Tag, 0xff)),
+            TxIn::ToKey { amount, key_offsets, .. } => { v.push((p, PosKind::Tag, 2)); v.push((p + 1 + serialize(amount).len(), PosKind::Count, vb(key_offsets.len())[0])); } }
+        p += serialize(i).len();
+    }
+    v.push((p, PosKind::Count, vb(pre.outputs.len())[0])); p += vb(pre.outputs.len()).len();
+    for x in &pre.outputs { v.push((p + serialize(&x.amount).len(), PosKind::Tag, match x.target { TxOutTarget::ToKey { .. } => 2, TxOutTarget::ToTaggedKey { .. } => 3, _ => 0 })); p += serialize(x).len(); }
+    v.push((p, PosKind::Count, vb(pre.extra.0.len())[0])); p += serialize(&pre.extra).len();
+    if p != serialize(pre).len() { return vec![]; }
+    if pre.version.0 == 1 { return v; }
+    if let Some(sig) = &tx.rct_signatures.sig {
+        v.push((p, PosKind::RctType, gen::rct_num(sig.rct_type)));
+        let mut q = p + serialize(sig).len();
+        if let Some(pr) = &tx.rct_signatures.p {
+            let mut lr = |v: &mut Vec<(usize, PosKind, u8)>, q: usize, l: usize| { v.push((q + 192, PosKind::Count, vb(l)[0])); v.push((q + 192 + vb(l).len() + 32 * l, PosKind::Count, 0)); };
+            match sig.rct_type {
+                RctType::Bulletproof => { v.push((q, PosKind::CountU32, pr.bulletproofs.len() as u8)); q += 4; }
+                RctType::Bulletproof2 | RctType::Clsag => { v.push((q, PosKind::Count, vb(pr.bulletproofs.len())[0])); q += vb(pr.bulletproofs.len()).len(); }
+                RctType::BulletproofPlus => { v.push((q, PosKind::Count, pr.bulletproofplus.len() as u8)); q += 1; }
+                _ => {}
+            }
+            for x in &pr.bulletproofs { lr(&mut v, q, x.L.len()); let k = v.len() - 1; v[k].2 = vb(x.R.len())[0]; q += serialize(x).len(); }
+            for x in &pr.bulletproofplus { lr(&mut v, q, x.L.len()); let k = v.len() - 1; v[k].2 = vb(x.R.len())[0]; q += serialize(x).len(); }
+        }
+    }
+    v
+}
+
+/// one byte of a valid encoding moved by -1 / +1, followed by 100 random bytes so that a decoder that now reads MORE than the
+/// original still finds bytes; partial parse, intrinsic oracle and model comparison (`dec_case`)
+fn perturb(o: &mut Out, r: &mut Rng, ty: &str, b: &[u8], pos: usize, fam: &str) {
+    for d in [255u8, 1] { let mut m = b.to_vec(); m[pos] = m[pos].wrapping_add(d); m.extend(r.bytes(100)); dec_case(o, ty, &m, fam); }
+}
+fn bp_of(r: &mut Rng, l: usize, rr: usize) -> Bulletproof { Bulletproof { A: gen::key(r), S: gen::key(r), T1: gen::key(r), T2: gen::key(r), taux: gen::key(r), mu: gen::key(r), L: gen::keys(r, l), R: gen::keys(r, rr), a: gen::key(r), b: gen::key(r), t: gen::key(r) } }
+fn bpp_of(r: &mut Rng, l: usize, rr: usize) -> BulletproofPlus { BulletproofPlus { A: gen::key(r), A1: gen::key(r), B: gen::key(r), r1: gen::key(r), s1: gen::key(r), d1: gen::key(r), L: gen::keys(r, l), R: gen::keys(r, rr) } }
+
+/// Family "perturbed counts": every structural count / tag byte of valid transactions, and EVERY byte of small component
+/// records (Bulletproof, BulletproofPlus, TxIn, TxOut, target, prefix), moved by ±1 with 100 random bytes appended.
+fn perturbed(o: &mut Out, r: &mut Rng, thorough: bool) {
+    let shapes = gen::sweep_shapes();
+    for (si, s) in shapes.iter().enumerate() {
+        let mut s = s.clone(); if si % 3 == 0 { s.nbp = 2; } if si % 5 == 0 { s.ring = 3; }
+        let tx = gen::tx_of(r, &s); let b = serialize(&tx);
+        let pos = tx_positions(&tx);
+        if pos.is_empty() || pos.iter().any(|(p, _, e)| b.get(*p) != Some(e)) { o.stat("perturb.position-mismatch"); o.direct(false, "harness: structural position table does not match the serialisation", format!("c01_dec tx {}", hex(&b)), format!("{:?}", pos), "expected bytes".into()); continue; }
+        for (p, k, _) in &pos {
+            if *k == PosKind::Tag && !(thorough || si % 4 == 0) { continue; }
+            perturb(o, r, "tx", &b, *p, "perturb");
+            // the same count re-written as a two-byte (non-minimal) varint, bytes behind it unchanged
+            if *k == PosKind::Count && (thorough || si % 4 == 1) { for alt in [vec![b[*p] | 0x80, 0x00]] { let mut m = b[..*p].to_vec(); m.extend(alt); m.extend_from_slice(&b[*p + 1..]); m.extend(r.bytes(100)); dec_case(o, "tx", &m, "perturb.width"); } }
+        }
+    }
+    // Bulletproof / BulletproofPlus with every pair of L/R lengths 0..3: both counts ±1
+    for l in 0..4usize { for rr in 0..4usize {
+        let x = bp_of(r, l, rr); let b = serialize(&x); let pr = 192 + 1 + 32 * l; perturb(o, r, "bp", &b, 192, "perturb"); perturb(o, r, "bp", &b, pr, "perturb");
+        let x = bpp_of(r, l, rr); let b = serialize(&x); perturb(o, r, "bpp", &b, 192, "perturb"); perturb(o, r, "bpp", &b, pr, "perturb");
+    } }
+    // every byte of small components
+    for round in 0..(if thorough { 6 } else { 2 }) {
+        let (l, rr) = [(1usize, 1usize), (2, 2), (0, 1), (1, 0), (3, 2), (2, 3)][round];
+        let b = serialize(&bp_of(r, l, rr)); for p in 0..b.len() { perturb(o, r, "bp", &b, p, "perturb.every-byte"); }
+        let b = serialize(&bpp_of(r, l, rr)); for p in 0..b.len() { perturb(o, r, "bpp", &b, p, "perturb.every-byte"); }
+        let s = gen::Shape { vary_rings: true, version: 2 - (round as u64 % 2), nin: 2, ring: 2, nout: 2, coinbase_first: round % 3 == 2, all_coinbase: false, rct: RctType::Null, nbp: 0, extra_len: 3 };
+        let tx = gen::tx_of(r, &s);
+        let b = serialize(&tx.prefix); for p in 0..b.len() { perturb(o, r, "prefix", &b, p, "perturb.every-byte"); }
+        for i in &tx.prefix.inputs { let b = serialize(i); for p in 0..b.len() { perturb(o, r, "txin", &b, p, "perturb.every-byte"); } }
+        for x in &tx.prefix.outputs { let b = serialize(x); for p in 0..b.len() { perturb(o, r, "txout", &b, p, "perturb.every-byte"); } let b = serialize(&x.target); for p in 0..b.len() { perturb(o, r, "target", &b, p, "perturb.every-byte"); } }
+        let h = gen::header(r); let b = serialize(&h); for p in 0..b.len() { perturb(o, r, "header", &b, p, "perturb.every-byte"); }
+    }
+}
+
+/// re-serialisation of `tx` with the version varint replaced (the value is not rebuilt: the body stays what the original version wrote)
+fn with_version(tx: &Transaction, v: u64) -> Vec<u8> { let b = serialize(tx); let k = serialize(&tx.prefix.version).len(); let mut m = gen::varint_bytes(v); m.extend_from_slice(&b[k..]); m }
+
+/// Family "versions": unusual and multi-byte version numbers in front of a v1 body with signatures, of an RingCT body of every
+/// type, and of a transaction without inputs (a dispatch on a truncated version — `as u8`, `as u32` — shows here)
+fn versions(o: &mut Out, r: &mut Rng) {
+    let mut bodies: Vec<Transaction> = vec![];
+    bodies.push(gen::tx_of(r, &gen::Shape { vary_rings: true, version: 1, nin: 2, ring: 2, nout: 1, coinbase_first: false, all_coinbase: false, rct: RctType::Null, nbp: 0, extra_len: 2 }));
+    bodies.push(gen::tx_of(r, &gen::Shape { vary_rings: false, version: 2, nin: 0, ring: 1, nout: 1, coinbase_first: false, all_coinbase: false, rct: RctType::Null, nbp: 0, extra_len: 2 }));
+    for t in gen::RCT_TYPES { bodies.push(gen::tx_of(r, &gen::Shape { vary_rings: false, version: 2, nin: 1, ring: 2, nout: if matches!(t, RctType::Full | RctType::Simple) { 0 } else { 1 }, coinbase_first: false, all_coinbase: false, rct: t, nbp: 1, extra_len: 2 })); }
+    for v in [0u64, 1, 2, 3, 127, 128, 129, 255, 256, 257, 258, (1 << 16) + 1, (1 << 16) + 2, (1 << 32) + 1, (1 << 32) + 2, 1 << 63, (1 << 63) + 1, u64::MAX] {
+        for t in &bodies { let b = with_version(t, v); dec_case(o, "tx", &b, "version"); strict_case(o, "tx", &b, "version");
+            let mut bs = b.clone(); bs.extend(r.bytes(100)); dec_case(o, "tx", &bs, "version");
+            let m = gen::mutate(r, &b); dec_case(o, "tx", &m, "version.mutated"); }
+    }
+}
+
+/// Family "structural sweeps": all 256 values at every input tag, every output target tag and the RingCT type byte (wherever
+/// they are in the encoding), 64 random bytes appended; and the RingCT base decoder alone with every type byte and mutated bytes
+fn structural_sweeps(o: &mut Out, r: &mut Rng, thorough: bool) {
+    let shapes = gen::sweep_shapes();
+    let mut picked: Vec<gen::Shape> = vec![];
+    // one two-input two-output shape per RingCT type is the pool; a run takes some of them (all in the thorough tier)
+    for t in gen::RCT_TYPES { picked.push(gen::Shape { vary_rings: true, version: 2, nin: 2, ring: 2, nout: if matches!(t, RctType::Full | RctType::Simple) { 1 } else { 2 }, coinbase_first: false, all_coinbase: false, rct: t, nbp: 1, extra_len: 1 }); }
+    picked.push(gen::Shape { vary_rings: true, version: 1, nin: 2, ring: 2, nout: 2, coinbase_first: true, all_coinbase: false, rct: RctType::Null, nbp: 0, extra_len: 1 });
+    if thorough { for _ in 0..24 { picked.push(r.pick(&shapes).clone()); } }
+    else { for i in (1..picked.len()).rev() { let j = r.below(i as u64 + 1) as usize; picked.swap(i, j); } picked.truncate(3); }
+    for s in &picked {
+        let tx = gen::tx_of(r, s); let b = serialize(&tx); let tail = r.bytes(64);
+        for (p, k, e) in tx_positions(&tx) { if !matches!(k, PosKind::Tag | PosKind::RctType) || b.get(p) != Some(&e) { continue; }
+            for v in 0..=255u8 { let mut m = b.clone(); m[p] = v; m.extend_from_slice(&tail); dec_case(o, "tx", &m, "structsweep"); } }
+    }
+    for (k, t) in [RctType::Simple, RctType::Bulletproof2, RctType::BulletproofPlus, RctType::Full, RctType::Clsag].iter().enumerate() {
+        if !thorough && k >= 2 { break; }
+        let tx = gen::tx_of(r, &gen::Shape { vary_rings: false, version: 2, nin: 2, ring: 1, nout: 2, coinbase_first: false, all_coinbase: false, rct: *t, nbp: 0, extra_len: 0 });
+        let mut b = serialize(tx.rct_signatures.sig.as_ref().unwrap()); let n = b.len(); b.extend(r.bytes(80));
+        let mut base_case = |o: &mut Out, i: usize, oo: usize, bb: &[u8], fam: &str| { let line = format!("c01_dec_base {} {} {}", i, oo, hex(bb)); let res = o.op(line.clone(), true); o.stat(&format!("base.{}.{}", fam, res.split(' ').next().unwrap()));
+            if res.starts_with("ok") { let f: Vec<&str> = res.split(' ').collect(); let kk: usize = f[1].parse().unwrap(); o.direct(unhex(f[2])[..] == bb[..kk.min(bb.len())], "C01: serialize(parse b) == b[..consumed]", line, f[2].into(), hex(&bb[..kk.min(bb.len())])); } };
+        for v in 0..=255u8 { let mut m = b.clone(); m[0] = v; base_case(o, 2, 2, &m, "typesweep"); }
+        for _ in 0..40 { let m = gen::mutate(r, &b[..n]); base_case(o, 2, 2, &m, "mutated"); base_case(o, r.below(4) as usize, r.below(4) as usize, &m, "mutated"); }
+    }
+}
+
+/// Family "long vectors": accepted vectors whose count crosses the one-/two-byte varint boundary, for element types that the
+/// other families only ever generate short (coinbase inputs, outputs, ring offsets, block hashes, proof L/R, boxed slices)
+fn long_vectors(o: &mut Out, r: &mut Rng, thorough: bool) {
+    let counts: &[usize] = if thorough { &[127, 128, 129, 255, 256, 257, 16383, 16384] } else { &[127, 128, 129, 255, 256, 257] };
+    for &n in counts {
+        let ins: Vec<TxIn> = (0..n).map(|_| TxIn::Gen { height: gen::vi(r) }).collect(); let b = serialize(&ins); dec_case(o, "vec_txin", &b, "long"); strict_case(o, "vec_txin", &b, "long");
+        let outs: Vec<TxOut> = (0..n).map(|_| TxOut { amount: gen::vi(r), target: if r.chance(1, 2) { TxOutTarget::ToKey { key: r.arr32() } } else { TxOutTarget::ToTaggedKey { key: r.arr32(), view_tag: r.byte() } } }).collect();
+        let b = serialize(&outs); dec_case(o, "vec_txout", &b, "long");
+        let ti = TxIn::ToKey { amount: gen::vi(r), key_offsets: (0..n).map(|_| gen::vi(r)).collect(), k_image: KeyImage { image: Hash(r.arr32()) } }; let b = serialize(&ti); dec_case(o, "txin", &b, "long"); let cp = 1 + match &ti { TxIn::ToKey { amount, .. } => serialize(amount).len(), _ => 0 }; perturb(o, r, "txin", &b, cp, "long.perturb"); perturb(o, r, "txin", &b, cp + 1, "long.perturb");
+        let ks = gen::keys(r, n); let b = serialize(&ks); dec_case(o, "vec_key", &b, "long"); dec_case(o, "box_key", &b, "long"); dec_case(o, "vec_hash", &b, "long"); dec_case(o, "msout", &b, "long");
+        let mut blk = gen::block(r, n); if n > 1000 { blk.miner_tx = gen::miner_tx(r); } let b = serialize(&blk); dec_case(o, "block", &b, "long"); strict_case(o, "block", &b, "long");
+        if n <= 257 { let x = bp_of(r, n, n); let b = serialize(&x); dec_case(o, "bp", &b, "long"); let x = bpp_of(r, n, n + 1); let b = serialize(&x); dec_case(o, "bpp", &b, "long");
+            // a transaction with that many coinbase inputs / with that many outputs
+            let t = gen::tx_of(r, &gen::Shape { vary_rings: false, version: 2, nin: n, ring: 1, nout: 1, coinbase_first: true, all_coinbase: true, rct: RctType::Null, nbp: 0, extra_len: 0 }); let b = serialize(&t); dec_case(o, "tx", &b, "long"); strict_case(o, "tx", &b, "long");
+            let t = gen::tx_of(r, &gen::Shape { vary_rings: false, version: 2, nin: 1, ring: 1, nout: n, coinbase_first: false, all_coinbase: false, rct: RctType::Clsag, nbp: 0, extra_len: 0 }); let b = serialize(&t); dec_case(o, "tx", &b, "long"); }
+    }
+}
+
+/// Family "stand-alone codecs": RctType, bool, signed integers, boxed slices, multisig records — every value / boundary lengths
+fn standalone(o: &mut Out, r: &mut Rng) {
+    for v in 0..=255u8 { dec_case(o, "rcttype", &[v], "all-values"); dec_case(o, "bool", &[v], "all-values"); dec_case(o, "i8", &[v], "all-values"); }
+    for v in 0..=8u8 { let mut b = vec![v]; b.extend(r.bytes(3)); dec_case(o, "rcttype", &b, "all-values"); strict_case(o, "rcttype", &b, "suffix"); strict_case(o, "rcttype", &[v], "exact"); }
+    for ty in ["rcttype", "bool", "i8", "i16", "i32", "i64"] { for len in 0..=9usize { let b = r.bytes(len); dec_case(o, ty, &b, "raw"); } for fill in [0u8, 0xff, 0x80, 0x7f] { dec_case(o, ty, &[fill; 8], "raw"); } }
+    for ty in ["box_key", "box_u8", "box_varint", "vec_hash", "msout"] { let sz: u64 = match ty { "box_u8" => 1, "box_varint" => 8, _ => 32 };
+        for n in [0usize, 1, 2, 3] { let mut b = gen::varint_bytes(n as u64); b.extend(r.bytes(n * sz as usize)); if ty == "box_varint" { b = serialize(&(0..n).map(|_| gen::vi(r)).collect::<Vec<VarInt>>()); }
+            dec_case(o, ty, &b, "valid"); for _ in 0..3 { let m = gen::mutate(r, &b); dec_case(o, ty, &m, "mutated"); } if !b.is_empty() { dec_case(o, ty, &b[..b.len() - 1], "truncated"); } let mut bs = b.clone(); bs.extend(r.bytes(5)); dec_case(o, ty, &bs, "suffix"); }
+        let cap = monero::consensus::encode::MAX_VEC_MEM_ALLOC_SIZE as u64;
+        for cnt in [cap / sz - 1, cap / sz, cap / sz + 1, cap, 1 << 32, u64::MAX / sz, u64::MAX] { let mut b = gen::varint_bytes(cnt); b.extend_from_slice(&[2, 0, 0, 1]); dec_case(o, ty, &b, "declared-length"); } }
+    for len in [0usize, 127, 128, 129, 160] { let b = r.bytes(len); dec_case(o, "klrki", &b, "raw"); }
+}
+
+/// strict parsing (`deserialize`) against the model's `strict` on valid encodings, valid + suffix, truncations and mutants of every record type
+fn strict_family(o: &mut Out, r: &mut Rng, n: usize) {
+    for it in 0..n {
+        let tx = gen::tx(r); let nh = r.below(4) as usize; let blk = gen::block(r, nh);
+        let mut items: Vec<(&str, Vec<u8>)> = vec![("tx", serialize(&tx)), ("prefix", serialize(&tx.prefix)), ("vec_txin", serialize(&tx.prefix.inputs)), ("vec_txout", serialize(&tx.prefix.outputs)), ("vec_u8", serialize(&tx.prefix.extra)), ("header", serialize(&blk.header))];
+        if it % 3 == 0 { items.push(("block", serialize(&blk))); }
+        if let Some(i) = tx.prefix.inputs.first() { items.push(("txin", serialize(i))); }
+        if let Some(x) = tx.prefix.outputs.first() { items.push(("txout", serialize(x))); items.push(("target", serialize(&x.target))); }
+        if let Some(p) = &tx.rct_signatures.p { if let Some(x) = p.bulletproofs.first() { items.push(("bp", serialize(x))); } if let Some(x) = p.bulletproofplus.first() { items.push(("bpp", serialize(x))); } if !p.pseudo_outs.is_empty() { items.push(("vec_key", serialize(&p.pseudo_outs))); items.push(("box_key", serialize(&p.pseudo_outs))); } }
+        for (ty, b) in items { if b.len() > 3000 && it % 8 != 0 { continue; }
+            strict_case(o, ty, &b, "valid"); let mut bs = b.clone(); bs.push(r.byte()); strict_case(o, ty, &bs, "suffix"); if !b.is_empty() { strict_case(o, ty, &b[..b.len() - 1], "truncated"); }
+            let m = gen::mutate(r, &b); strict_case(o, ty, &m, "mutated"); }
     }
 }
 
@@ -150,5 +347,15 @@ pub fn run(o: &mut Out, tier: &str, seed: u64) {
     for ty in ["u8", "u16", "u32", "u64", "key", "hash8", "sig"] { for len in 0..=70usize { if len % 8 > 1 && len > 9 && len != 32 && len != 33 && len != 64 && len != 65 { continue; } let b = r.bytes(len); dec_case(o, ty, &b, "raw"); } }
     for len in [2047usize, 2048, 2049] { let b = r.bytes(len); dec_case(o, "key64", &b, "raw"); }
     for len in [6175usize, 6176, 6177] { let b = r.bytes(len); dec_case(o, "rangesig", &b, "raw"); }
+    // --- families added after the audit (own generator state, so that the families above see the same stream as before) ---
+    let thorough = tier == "thorough";
+    let mut r2 = Rng::new(seed ^ 0x0c01_a0d1);
+    perturbed(o, &mut r2, thorough);
+    versions(o, &mut r2);
+    structural_sweeps(o, &mut r2, thorough);
+    long_vectors(o, &mut r2, thorough);
+    standalone(o, &mut r2);
+    strict_family(o, &mut r2, if thorough { 400 } else { 60 });
+    o.notes.push("added families: every structural count/tag byte (and every byte of small records) ±1 with 100 random bytes appended; unusual and multi-byte versions in front of every body kind; 256-value sweeps at every input tag / target tag / RingCT type byte wherever it lies, and of the RingCT base decoder alone; accepted vectors with counts across 127/128 and 255/256; stand-alone RctType / bool / signed integer / boxed-slice / multisig codecs; `deserialize` against the model's `strict`".into());
     o.notes.push("non-trivial = distinct accepted inputs (the only ones on which C01 says anything) plus every base/prunable case; the malformed stream is 9 mutation kinds, tag sweeps, every-position truncation and declared-length attacks".into());
 }
